@@ -90,6 +90,22 @@ def one(ctx, rng, xr, utils):
     key = "%s|%s|nf=%d|nd=%d|full=%s:%s|fw=%d|dw=%d|lead=%d|%s" % (stored, dt, nf, nd, full, conv, fw, dw, len(lnames), cls)
     via = str(rng.choice(["accessor", "function", "dataset"]))
 
+    # dask-backed input chunked along the spectral and/or leading dims (windows must see across chunk boundaries)
+    backing = "numpy"
+    x_np = x
+    if rng.random() < 0.15:
+        ch = {}
+        if nf > 2 and rng.random() < 0.7:
+            ch["freq"] = int(rng.integers(1, nf))
+        if nd > 2 and rng.random() < 0.5:
+            ch["dir"] = int(rng.integers(1, nd))
+        for n_ in lnames:
+            ch[n_] = 1
+        if ch:
+            x = x.chunk(ch)
+            backing = "dask:" + "+".join(sorted(ch))
+    key += "|" + backing
+
     def call(fw_, dw_):
         if via == "accessor":
             return x.spec.smooth(freq_window=fw_, dir_window=dw_)
@@ -133,7 +149,7 @@ def one(ctx, rng, xr, utils):
         (rec.ok("window_one_identity", key) if ident else rec.bad("window_one_identity", key, {"dir": x.dir.values}, "window-one-not-identity"))
     if ok and inside:
         rec.ok("smooth", key, sample={"windows": [fw, dw], "stored": stored, "dir": x.dir.values[:4]})
-        if rng.random() < 0.3:
+        if backing == "numpy" and rng.random() < 0.3:
             # same object, same windows, after an in-place edit of the input (and of the first result): the second
             # call must smooth what the object holds now
             try:
